@@ -33,7 +33,10 @@ def run_history(ops, geom):
         ev = {"op": op, "arg": arg, "out": "ok"}
         try:
             if op == "add_array":
-                charge.add_charge_array(np.array(arg, dtype=float).reshape(r, c))
+                a2 = np.array(arg, dtype=float).reshape(r, c)
+                if (len(events) + int(sum(arg))) % 2:      # the same values in another memory layout (valid input)
+                    a2 = np.asfortranarray(a2)
+                charge.add_charge_array(a2)
             elif op == "add_clusters":
                 n = len(arg)
                 z = np.zeros(n)
